@@ -198,7 +198,11 @@ func checkEstimator(c *core.Ctx, p *packages.Package, d *declIndex, e estEntry) 
 		c.Unknown("C16.R1", cons, "Initialize interpreted", ctor.Pos(), msg)
 		return
 	}
-	for _, tag := range []string{"a", "b"} {
+	tags := []string{"a", "b"}
+	if c.Tier == "thorough" {
+		tags = []string{"a", "b", "c"} // a third generic observation: the identity is re-checked on a larger data set
+	}
+	for _, tag := range tags {
 		if obj, msg = runOn(p, d, e.T, "NewObservation", obj, nil); obj == nil {
 			c.Unknown("C16.R1", cons, "NewObservation interpreted", ctor.Pos(), msg)
 			return
@@ -224,7 +228,10 @@ func checkEstimator(c *core.Ctx, p *packages.Package, d *declIndex, e estEntry) 
 		P[n] = sym.Sym(n)
 	}
 	f := entry.variants[0].formula
-	L := sym.Add(sym.Mul(sym.Fn("exp", sym.Sym("g_a")), f(P, sym.Sym("x_a"))), sym.Mul(sym.Fn("exp", sym.Sym("g_b")), f(P, sym.Sym("x_b"))))
+	L := sym.Zero()
+	for _, tag := range tags {
+		L = sym.Add(L, sym.Mul(sym.Fn("exp", sym.Sym("g_"+tag)), f(P, sym.Sym("x_"+tag))))
+	}
 	nInterior := 0
 	for _, pa := range upaths {
 		if pa.Panic || pa.RecvObj == nil {
